@@ -12,4 +12,4 @@ fi
 dir=$(dirname "$dest")
 tests=$(grep -hoE "^func (Test[A-Za-z0-9_]+)" "$demo" | awk '{print $2}' | grep -v "^TestMain$" | paste -sd'|')
 echo "=========== $id  (demo -> $dest, tests: $tests)"
-cd /verif && checks/try_seed.sh $out /repo/$dest "./$dir/ -run ^($tests)\$" "$@" 2>&1 | grep -v "^---\|^FAIL$"
+cd /verif && SEED_REPO=${SEED_REPO:-} checks/try_seed.sh $out /repo/$dest "./$dir/ -run ^($tests)\$" "$@" 2>&1 | grep -v "^---\|^FAIL$"
